@@ -104,6 +104,15 @@ def defenses_of(sp, t):
     return [n for n, r in inherit.resolve(sp, t).items() if r['decl']['type'] == 'defense']
 
 
+def _idof(o):
+    """id of a referenced asset; a reference the loader could not resolve (None, or an object without a
+    usable id) is content too - it must show up as a difference, not crash the harness (seed C07-6)"""
+    try:
+        return int(o.id)
+    except Exception:  # noqa: BLE001
+        return 'DANGLING:' + type(o).__name__
+
+
 def content(m, sp):
     """what C07 compares, read from the live objects (not through _to_dict)"""
     assets = {}
@@ -118,12 +127,12 @@ def content(m, sp):
         lf, rf = list(x._properties.keys())
         ex = getattr(x, 'extras', {})
         ex = ex._value if hasattr(ex, '_value') else ex
-        assocs.append((type(x).__name__, (str(lf), sorted(int(o.id) for o in getattr(x, lf))),
-                       (str(rf), sorted(int(o.id) for o in getattr(x, rf))),
+        assocs.append((type(x).__name__, (str(lf), sorted((_idof(o) for o in getattr(x, lf)), key=repr)),
+                       (str(rf), sorted((_idof(o) for o in getattr(x, rf)), key=repr)),
                        json.dumps(json.loads(json.dumps(ex, default=_lit)), sort_keys=True)))
     atts = {}
     for t in m.attackers:
-        atts[t.id] = {'name': t.name, 'entry_points': {int(a.id): list(s) for a, s in t.entry_points}}
+        atts[t.id] = {'name': t.name, 'entry_points': {_idof(a): list(s) for a, s in t.entry_points}}
     return {'name': m.name, 'assets': assets, 'associations': sorted(assocs, key=repr), 'attackers': atts}
 
 
